@@ -466,19 +466,81 @@ func (a *Analyzer) Entropy(rule string, funcs []*ssa.Function, attrSink bool) {
 // in the same block, was created fresh (make / slices.Clone), filled by copy, and sorted with a
 // total comparator.
 func (a *Analyzer) isSortedCopy(info *types.Info, body *ast.BlockStmt, rs *ast.RangeStmt) (bool, string) {
+	if call, isCall := ast.Unparen(rs.X).(*ast.CallExpr); isCall {
+		if ok, why := a.sortedCopyHelper(info, call); ok {
+			return true, ""
+		} else if why != "" {
+			return false, why
+		}
+	}
 	id, ok := ast.Unparen(rs.X).(*ast.Ident)
 	if !ok {
 		return false, "ranges " + exprKey(rs.X) + " directly: the order of visits follows the caller's order"
 	}
 	obj := objOf(info, id)
-	fresh, sorted, copied := false, false, false
-	why := ""
 	path := pathTo(body, rs)
 	if path == nil {
 		return false, "loop not located"
 	}
 	fr := path[len(path)-1]
-	for _, st := range fr.list[:fr.idx] {
+	return a.sortedCopyState(info, fr.list[:fr.idx], obj, id.Name)
+}
+
+// sortedCopyHelper: the call is a repository helper that returns a fresh, sorted copy: its body ends in
+// `return v` where v satisfies sortedCopyState over the preceding statements.
+func (a *Analyzer) sortedCopyHelper(info *types.Info, call *ast.CallExpr) (bool, string) {
+	fn, _ := typeutil.Callee(info, call).(*types.Func)
+	if fn == nil || !load.IsRepoPkg(fn.Pkg()) {
+		return false, ""
+	}
+	if fn.Origin() != nil {
+		fn = fn.Origin()
+	}
+	pk := a.P.Pkgs[load.ShortPkg(fn.Pkg())]
+	if pk == nil {
+		return false, ""
+	}
+	for _, f := range pk.Syntax {
+		for _, d := range f.Decls {
+			fd, ok := d.(*ast.FuncDecl)
+			if !ok || fd.Body == nil || pk.TypesInfo.Defs[fd.Name] != fn || len(fd.Body.List) == 0 {
+				continue
+			}
+			last, ok := fd.Body.List[len(fd.Body.List)-1].(*ast.ReturnStmt)
+			if !ok || len(last.Results) != 1 {
+				return false, fn.Name() + " does not end in a single-value return"
+			}
+			rid, ok := ast.Unparen(last.Results[0]).(*ast.Ident)
+			if !ok {
+				return false, fn.Name() + " does not return a local variable"
+			}
+			// no other return
+			others := 0
+			ast.Inspect(fd.Body, func(n ast.Node) bool {
+				if _, isLit := n.(*ast.FuncLit); isLit {
+					return false
+				}
+				if r, ok := n.(*ast.ReturnStmt); ok && r != last {
+					others++
+				}
+				return true
+			})
+			if others > 0 {
+				return false, fn.Name() + " has several returns"
+			}
+			return a.sortedCopyState(pk.TypesInfo, fd.Body.List[:len(fd.Body.List)-1], objOf(pk.TypesInfo, rid), rid.Name+" (in "+fn.Name()+")")
+		}
+	}
+	return false, ""
+}
+
+// sortedCopyState scans the statements before the use: the variable was created fresh (make / slices.Clone /
+// a sorted-copy helper), filled by copy, and sorted with a total comparator, in that order.
+func (a *Analyzer) sortedCopyState(info *types.Info, stmts []ast.Stmt, obj types.Object, name string) (bool, string) {
+	id := &ast.Ident{Name: name}
+	fresh, sorted, copied := false, false, false
+	why := ""
+	for _, st := range stmts {
 		switch s := st.(type) {
 		case *ast.AssignStmt:
 			for i, l := range s.Lhs {
@@ -493,6 +555,9 @@ func (a *Analyzer) isSortedCopy(info *types.Info, body *ast.BlockStmt, rs *ast.R
 					}
 					if cf, _ := typeutil.Callee(info, call).(*types.Func); cf != nil && cf.Pkg() != nil && cf.Pkg().Path() == "slices" && cf.Name() == "Clone" {
 						fresh, copied = true, true
+					}
+					if ok, _ := a.sortedCopyHelper(info, call); ok {
+						fresh, copied, sorted = true, true, true
 					}
 				}
 			}
